@@ -1,6 +1,80 @@
-(* C05 placeholder -- extended below *)
-From Coq Require Import ZArith QArith List.
-From PV Require Import M_Thermal.
+(* C05 -- Thermal channels follow the documented NOAA KLM (section 7.1.2.4) calibration procedure.
+   Statements only; proofs in Proofs/P_C05.v and Lib/Median.v.
+   PRT readings enter as 3 x mean (integers), so "below 50 counts" is "< 150". *)
+From Coq Require Import ZArith QArith List Bool Arith.
+From PV Require Import Median NumSig Gen_Coeffs M_Thermal P_C05.
+Import ListNotations.
+
+(* PRT cycle location: the search returns the reset residue r whenever class r has a strict majority of readings
+   below 50 and every earlier class a strict majority of readings not below 50 (or no line at all) -- for every
+   first line number, every gap pattern, every pass length *)
+Theorem C05_phase : forall cls prt3 r, (0 <= r <= 4)%Z ->
+  (2 * count_lt 150 (class_sel cls prt3 r) > length (class_sel cls prt3 r))%nat ->
+  (forall k, (0 <= k < r)%Z ->
+     (2 * (length (class_sel cls prt3 k) - count_lt 150 (class_sel cls prt3 k)) > length (class_sel cls prt3 k))%nat \/
+     class_sel cls prt3 k = []) ->
+  find_offset cls prt3 = Some r.
+Proof. exact find_offset_spec. Qed.
+
+(* the thermometer of a line is determined by its absolute scan line number and the absolute reset residue *)
+Theorem C05_thermometer_index : forall lns offset,
+  iprt_of (line_class lns) offset = map (fun l => ((l - (hd 0%Z lns + offset)) mod 5)%Z) lns.
+Proof. exact iprt_absolute. Qed.
+
+(* the median test behind it (all integer lists) *)
+Theorem C05_median_threshold : forall l c,
+  ((2 * count_lt c l > length l)%nat -> (median2 l < 2 * c)%Z) /\
+  ((2 * (length l - count_lt c l) > length l)%nat -> (2 * c <= median2 l)%Z).
+Proof. intros. split; [apply median2_lt|apply median2_ge]. Qed.
+
+(* gap filling (np.interp over the line index): exact at a valid reading, end values held *)
+Theorem C05_gapfill_ends : forall nodes x0 f0 x, (x <= x0)%nat -> interp ((x0, f0) :: nodes) x = Some f0.
+Proof. exact interp_first. Qed.
+Theorem C05_gapfill_node : forall x prev xi fi r, x = xi -> interp_go x prev ((xi, fi) :: r) = fi.
+Proof. exact interp_go_at_node. Qed.
+
+(* boxcar smoothing with edge replication, for EVERY pass length >= 3: line i gets the mean of the w lines centred
+   on clamp(i, h, L-1-h); w = 51 for passes longer than 51 lines, 3 otherwise *)
+Theorem C05_boxcar : forall x i, (3 <= length x)%nat -> (i < length x)%nat ->
+  let L := length x in
+  let w := if (51 <? L)%nat then 51%nat else 3%nat in
+  let h := ((w - 1) / 2)%nat in
+  nth i (smooth x) 0%Q = window_mean x (clamp i h (L - 1 - h)) h w.
+Proof. exact smooth_spec. Qed.
+
+(* the radiance chain: Ts_BB = A + B T; N_BB = c1 nu^3 / (exp(c2 nu / Ts_BB) - 1);
+   N_lin = N_S + (N_BB - N_S)(C_S - C_E)/(C_S - C_BB); N_E = N_lin + b0 + b1 N_lin + b2 N_lin^2;
+   T_E = (c2 nu / ln(1 + c1 nu^3 / N_E) - A) / B   -- over any numeric instance *)
+Theorem C05_radiance_chain : forall (N : NumSig) r tbb cs cbb ce,
+  let q := ofQ N in
+  let tsbb := add N (q (i_a r)) (mul N (q (i_b r)) tbb) in
+  let nbb := div N (q (c1 * i_nu r * i_nu r * i_nu r)) (sub N (expT N (div N (q (c2 * i_nu r)) tsbb)) (q 1)) in
+  let nlin := add N (q (i_ns r)) (div N (mul N (sub N nbb (q (i_ns r))) (sub N cs ce)) (sub N cs cbb)) in
+  let ne := add N nlin (add N (add N (q (i_b0 r)) (mul N (q (i_b1 r)) nlin)) (mul N (mul N (q (i_b2 r)) nlin) nlin)) in
+  bt_raw N r tbb cs cbb ce =
+  div N (sub N (div N (q (c2 * i_nu r)) (lnT N (add N (q 1) (div N (q (c1 * i_nu r * i_nu r * i_nu r)) ne)))) (q (i_a r))) (q (i_b r)).
+Proof. exact chain_formula. Qed.
 Theorem C05_constants : (c1 == 11910427 # 1000000000000)%Q /\ (c2 == 14387752 # 10000000)%Q.
 Proof. split; reflexivity. Qed.
+
+(* values outside 170..350 K are reported as NaN *)
+Theorem C05_range_mask : forall (N : NumSig) chan3 r tbb cs cbb ce v,
+  bt N chan3 r tbb cs cbb ce = Some v -> ltb N v (ofQ N 170) = false /\ ltb N (ofQ N 350) v = false.
+Proof. exact range_mask. Qed.
+
+(* non-vacuity: a 7-line pass starting at line 3 whose reset lines are 5 and 10 (residue 0): offset 2 *)
+Example C05_example :
+  find_offset (line_class [3; 4; 5; 6; 7; 8; 10]%Z) [1200; 1210; 0; 1190; 1200; 1210; 3]%Z = Some 2%Z /\
+  (nth 0 (smooth [1; 2; 3; 4; 5; 6]%Q) 0 == 2)%Q /\ (nth 5 (smooth [1; 2; 3; 4; 5; 6]%Q) 0 == 5)%Q.
+Proof. vm_compute. repeat split. Qed.
+
+Print Assumptions C05_phase.
+Print Assumptions C05_thermometer_index.
+Print Assumptions C05_median_threshold.
+Print Assumptions C05_gapfill_ends.
+Print Assumptions C05_gapfill_node.
+Print Assumptions C05_boxcar.
+Print Assumptions C05_radiance_chain.
 Print Assumptions C05_constants.
+Print Assumptions C05_range_mask.
+Print Assumptions C05_example.
